@@ -404,8 +404,56 @@ def run(chk: Check) -> None:
                           f"model={model_out[diff]!r}; property oracle holds on this case and its shrinks",
                           replay, no_input=True)
     chk.suite("ring-ops", len(cases), ndiff)
+    sample_stress(chk)
     if chk.tier == "thorough":
         selftest(chk)
+
+
+def stress_one(cls_name: str, cap: int, fill: int, batch: int, seed: int, w: int, n_draws: int):
+    from agilerl.components.replay_buffer import MultiStepReplayBuffer, ReplayBuffer
+    cls = ReplayBuffer if cls_name == "ReplayBuffer" else MultiStepReplayBuffer
+    torch.manual_seed(seed)
+    buf = cls(max_size=cap) if cls is ReplayBuffer else cls(max_size=cap, n_step=1, gamma=0.5)
+    nid = 1
+    while nid <= fill:
+        ids = list(range(nid, min(nid + w, fill + 1)))
+        buf.add(make_transition("vector", ids))
+        nid += len(ids)
+    stored = set(map(str, range(max(1, fill - cap + 1), fill + 1)))
+    for d in range(n_draws):
+        sb = buf.sample(batch, return_idx=True) if cls is ReplayBuffer else buf.sample(batch)
+        rows = decode_rows(sb, sb.shape[0])
+        if len(rows) != batch or len(set(rows)) != len(rows) or not set(rows) <= stored:
+            return (f"{cls.__name__}(max_size={cap}) holding {min(fill, cap)} rows: sample({batch}) draw {d} returned "
+                    f"{'a repeated row' if len(set(rows)) != len(rows) else 'rows ' + str(sorted(set(rows) - stored)[:3])}: {rows[:12]}")
+    return None
+
+
+def sample_stress(chk: Check) -> None:
+    """large buffers, batches much smaller than the buffer, many draws: every uniform batch must consist of
+    distinct stored rows (sampling code paths may depend on the size / batch-size ratio)"""
+    from agilerl.components.replay_buffer import MultiStepReplayBuffer, ReplayBuffer
+    rng = chk.rng
+    n_cfg = 14 if chk.tier == "quick" else 60
+    n_draws = 300 if chk.tier == "quick" else 600
+    bad = 0
+    for _ in range(n_cfg):
+        cap = rng.choice([64, 100, 257, 600, 1000])
+        fill = rng.choice([cap, cap, rng.randint(cap // 2, cap), cap + rng.randint(1, cap // 2)])
+        batch = rng.choice([1, 2, 3, 8, 16, 32, 64])
+        batch = min(batch, max(1, min(fill, cap) // rng.choice([1, 2, 9, 12, 20])))
+        seed = rng.randrange(1 << 30)
+        cls = rng.choice([ReplayBuffer, ReplayBuffer, MultiStepReplayBuffer])
+        w = rng.choice([1, 4, 7])
+        problem = stress_one(cls.__name__, cap, fill, batch, seed, w, n_draws)
+        chk.case(["stress", cls.__name__, cap, fill, batch, seed], nontrivial=True,
+                 sample={"suite": "sample-stress", "buffer": cls.__name__, "cap": cap, "added": fill, "batch": batch},
+                 tags=["sample-stress", f"ratio-{min(fill, cap) // max(batch, 1) > 8}"])
+        if problem:
+            bad += 1
+            chk.violation(problem, {"suite": "sample-stress", "buffer": cls.__name__, "cap": cap, "added": fill,
+                                    "batch": batch, "torch_seed": seed, "add_width": w, "draws": n_draws})
+    chk.suite("sample-stress", n_cfg, bad)
 
 
 def renumber(ops):
@@ -449,6 +497,12 @@ def selftest(chk: Check) -> None:
 def replay(chk: Check, path: str) -> int:
     c = json.loads(open(path).read())
     c = c.get("replay", c)
+    if c.get("suite") == "sample-stress":
+        problem = stress_one(c["buffer"], c["cap"], c["added"], c["batch"], c["torch_seed"], c["add_width"], c["draws"])
+        print(json.dumps({"problem": problem}))
+        if problem:
+            print(f"VIOLATION property=C09 replay={path}")
+        return 1 if problem else 0
     diff, problems, _, impl, model = one_case(chk, c["which"], c["cap"], c["kind"], c["ops"], c.get("seed", 0))
     print(json.dumps({"diff_at": diff, "oracle_problems": problems, "impl": impl, "model": model}, indent=1))
     if problems:
